@@ -12,6 +12,11 @@ import (
 var commands = map[string]func([]string) error{
 	"store": cmdStore,
 	"smtp":  cmdSMTP,
+	"rest":  cmdRest,
+	"sanitize": cmdSanitize,
+	"pop3":  cmdPOP3,
+	"naming": cmdNaming,
+	"wild":  cmdWild,
 }
 
 func main() {
